@@ -161,22 +161,40 @@ func c19fail(t *testing.T, kind string, detail string) {
 	t.Errorf("C19 %s: %s", kind, detail)
 }
 
-// checkNum evaluates one value of one numeric code type against the declared set.
-func checkNum(tname string, nc numCode, declared map[uint64]string, x uint64) string {
+// checkNum evaluates one value of one numeric code type against the declared set. With deep set the value is also printed
+// (String of an undeclared value takes the fallback path) and every predicate is evaluated a second time: a validity
+// check must not depend on what was printed or checked before (lazily filled tables, memoised fallback names).
+func checkNum(tname string, nc numCode, declared map[uint64]string, x uint64, deep bool) string {
 	_, isDecl := declared[x]
-	if nc.isValid != nil {
+	pass := func(when string) string {
+		if nc.isValid == nil {
+			return ""
+		}
 		if got := nc.isValid(x); got != isDecl {
-			return fmt.Sprintf("%s(%#x): declared=%v but IsValid/IsSupported=%v", tname, x, isDecl, got)
+			return fmt.Sprintf("%s(%#x): declared=%v but IsValid/IsSupported=%v%s", tname, x, isDecl, got, when)
 		}
 		for _, c := range nc.checks {
 			if got, name := c(x); got != isDecl {
-				return fmt.Sprintf("%s(%#x): declared=%v but %s=%v", tname, x, isDecl, name, got)
+				return fmt.Sprintf("%s(%#x): declared=%v but %s=%v%s", tname, x, isDecl, name, got, when)
 			}
 		}
+		return ""
 	}
-	if isDecl {
-		if s := nc.str(x); strings.Contains(s, "?") {
+	if msg := pass(""); msg != "" {
+		return msg
+	}
+	if isDecl || deep {
+		s := nc.str(x)
+		if isDecl && strings.Contains(s, "?") {
 			return fmt.Sprintf("%s(%#x) = %s prints the fallback name %q", tname, x, declared[x], s)
+		}
+		if deep {
+			if msg := pass(" (second evaluation, after the value was checked and printed once)"); msg != "" {
+				return msg
+			}
+			if s2 := nc.str(x); s2 != s {
+				return fmt.Sprintf("%s(%#x) prints %q, then %q", tname, x, s, s2)
+			}
 		}
 	}
 	return ""
@@ -233,7 +251,8 @@ func TestC19(t *testing.T) {
 		}
 		sweep := func(lo, hi uint64, class string) {
 			for x := lo; x <= hi; x++ {
-				if msg := checkNum(tn, nc, declared, x); msg != "" {
+				// full 32-bit sweeps print and re-evaluate one value in 509 (printing 2^32 fallback names costs hours)
+				if msg := checkNum(tn, nc, declared, x, !strings.HasPrefix(class, "sweep32:") || x%509 == 0); msg != "" {
 					c19fail(t, "num-mismatch", msg)
 					return
 				}
@@ -278,14 +297,14 @@ func TestC19(t *testing.T) {
 				for x := range declared {
 					for d := -2; d <= 2; d++ {
 						y := uint64(uint32(int64(x) + int64(d)))
-						if msg := checkNum(tn, nc, declared, y); msg != "" {
+						if msg := checkNum(tn, nc, declared, y, true); msg != "" {
 							c19fail(t, "num-mismatch", msg)
 						}
 						cnt++
 					}
 					for b := 0; b < 32; b++ {
 						y := x ^ (1 << uint(b))
-						if msg := checkNum(tn, nc, declared, y); msg != "" {
+						if msg := checkNum(tn, nc, declared, y, true); msg != "" {
 							c19fail(t, "num-mismatch", msg)
 						}
 						cnt++
@@ -304,7 +323,7 @@ func TestC19(t *testing.T) {
 			if nc.bits != 32 {
 				continue
 			}
-			if msg := checkNum(tn, nc, declNum[tn], x); msg != "" {
+			if msg := checkNum(tn, nc, declNum[tn], x, true); msg != "" {
 				rt.Fatalf("%s", msg)
 			}
 		}
@@ -345,6 +364,9 @@ func TestC19(t *testing.T) {
 				}
 				if got := sc.check(s); got != isDecl {
 					c19fail(t, "str-mismatch", fmt.Sprintf("%s(%q): declared=%v but Check*/capability accepts=%v", tn, s, isDecl, got))
+				}
+				if got := sc.isValid(s); got != isDecl {
+					c19fail(t, "str-mismatch", fmt.Sprintf("%s(%q): declared=%v but IsValid=%v on the second evaluation (after Check* built its error)", tn, s, isDecl, got))
 				}
 				rec.Case(true, stats.HashString(tn+"\x00"+s), func() string { return fmt.Sprintf("%s(%q) declared=%v", tn, s, isDecl) }, "str:"+tn)
 			}
